@@ -16,7 +16,10 @@ Rep(n, b) == [i \in 1..n |-> b]
 Pat(n, k) == [i \in 1..n |-> (16 * k + i) % 256]      \* distinct pattern number k
 
 IntDom(t) == LET n == Width[t] IN {Rep(n, 0), <<1>> \o Rep(n - 1, 0), Rep(n, 255), Pat(n, 7), Rep(n - 1, 255) \o <<127>>}
-StrDom == {<<>>, <<97>>, <<0, 255, 128>>, <<57, 80, 50, 48, 48, 48>>, <<47, 92, 46, 46, 32, 195, 40, 10>>}
+\* empty, ASCII, invalid UTF-8 with NUL, "9P2000", separators + a broken sequence, and valid multi-byte UTF-8
+\* ("caf" + U+00E9, U+65E5 U+672C): byte length # rune count
+StrDom == {<<>>, <<97>>, <<0, 255, 128>>, <<57, 80, 50, 48, 48, 48>>, <<47, 92, 46, 46, 32, 195, 40, 10>>,
+           <<99, 97, 102, 195, 169>>, <<230, 151, 165, 230, 156, 172>>}
 DataDom == {<<>>, <<1, 2, 3>>, <<0>>}
 
 QidOf(k) == [type |-> <<(128 + k) % 256>>, vers |-> Pat(4, k), path |-> Pat(8, k + 1)]
